@@ -80,6 +80,9 @@ func verifyBundle(r io.ReaderAt, files zipFiles, sig *AppxSignature, skipDigests
 		if !ok {
 			return fmt.Errorf("bundle manifest: missing file %s", zf.Name)
 		}
+		if pkgIndex < 0 {
+			return fmt.Errorf("bundle manifest: duplicate file %s", zf.Name)
+		}
 		packages[dosname] = -1 // mark as seen
 		pkg := bundle.Packages[pkgIndex]
 
